@@ -60,7 +60,7 @@ Section Dir.
     exists r, place (mrr_pin v dt x) = Some r /\ new_dr_len_of r = len /\
       u32_ok (rs_mode x) = true /\ u32_ok (rs_links x) = true /\ u32_ok (rs_bl x) = true /\
       u32_ok (rs_off x) = true /\ 0 <= pl_celen r /\ rs_off x + pl_celen r <= BS /\
-      u32 (rs_ext x) /\ u32 (rs_len x) /\ byte (rs_fl x) /\ 1 <= zlen (rs_nm x).
+      u32 (rs_ext x) /\ u32 (rs_len x) /\ byte (rs_fl x).
 
   Lemma mrr_drec_len x bd : sysuse (mrr_drec v dt x) = bd ->
     Codec.dr_len_of (mrr_drec v dt x) =
@@ -82,7 +82,7 @@ Section Dir.
       enc_dr (mrr_drec v dt x) = Some b /\ zlen b = len /\ 34 <= len <= 254 /\
       ms_good (pad_sysuse (mrr_drec v dt x)) b /\ mrr_spec_ok v dt x = true.
   Proof.
-    intros (r & Hpl & Hlen & Hm & Hl & Hb & Ho & C0 & C1 & Xe & Xl & Xf & Xn).
+    intros (r & Hpl & Hlen & Hm & Hl & Hb & Ho & C0 & C1 & Xe & Xl & Xf).
     assert (Hcel : u32_ok (pl_celen r) = true) by (unfold u32_ok, BS in *; lia).
     destruct (mrr_su_facts v dt x r Hpl Hm Hl Hb Ho Hcel) as (bd & bc & Ed & Ec & Esu & F1 & F2 & F3 & F4 & F5 & _).
     assert (Es : sysuse (mrr_drec v dt x) = bd) by (unfold mrr_drec, mrr_su_get; rewrite Esu; reflexivity).
@@ -93,7 +93,8 @@ Section Dir.
       unfold u32, byte in *. lia. }
     destruct Hfit as [b Eb]. destruct (dr_len_value _ b Eb) as [Z1 Z2]. rewrite Hdl in Z1, Z2.
     assert (Hw : wf_drec (mrr_drec v dt x)) by (split; [exact Hdt|left; reflexivity]).
-    assert (Hge : 34 <= Account.dr_len_of (rs_nm x)) by (unfold Account.dr_len_of; cbv zeta; lia).
+    assert (Hge : 34 <= Account.dr_len_of (rs_nm x))
+      by (unfold Account.dr_len_of; pose proof (zlen_nonneg (rs_nm x)); cbv zeta; lia).
     pose proof (zlen_nonneg bd).
     exists r, b, bd, bc. split; [exact Hpl|]. split; [exact Esu|]. split; [exact Ed|]. split; [exact Ec|].
     split; [exact F5|]. split; [exact Es|]. split; [exact F1|]. split; [exact Eb|]. split; [lia|]. split; [lia|].
@@ -207,7 +208,7 @@ Section Dir.
     cbn [rs_mode rs_links rs_bl rs_off rs_ext rs_len rs_fl rs_nm]. split; [lia|]. split; [reflexivity|].
     split; [unfold mrr_links_at; rewrite Hp; exact (mrr_links_u32 _ _ Hp)|].
     split; [destruct (mrr_is_root p); [exact A|reflexivity]|]. split; [reflexivity|].
-    unfold u32, byte, BS in *. repeat split; try lia. reflexivity.
+    unfold u32, byte, BS in *. repeat split; lia.
   Qed.
 
   Lemma mrr_dotdot_good p m dl kids : mrr_node_at t p = Some (RDir m dl kids) ->
@@ -229,7 +230,7 @@ Section Dir.
     split; [change (dotdot_len v) with (dot_len v false); lia|]. split; [reflexivity|].
     split; [unfold mrr_links_at; rewrite Hpp; exact (mrr_links_u32 _ _ Hpp)|].
     split; [reflexivity|]. split; [reflexivity|].
-    unfold mrr_dlen_at. rewrite Hpp. unfold u32, byte, BS in *. repeat split; try lia. reflexivity.
+    unfold mrr_dlen_at. rewrite Hpp. unfold u32, byte, BS in *. repeat split; lia.
   Qed.
 
   (* ---- all records of a directory ------------------------------------------------------------------------ *)
